@@ -183,7 +183,7 @@ pub fn explore(ctx: &Ctx) {
 }
 
 pub fn replay(ctx: &Ctx, clause: &str, case: &Value) {
-    let c: PtCase = serde_json::from_value(case.clone()).expect("case");
+    let c: PtCase = serde_json::from_value::<PtCase>(case.clone()).map(PtCase::fix).expect("case");
     let mut l = Local::default();
     if clause.starts_with("weather") || clause.starts_with("absent") {
         judge_weather(ctx, &mut l, &c.params, c.site, c.date);
